@@ -39,6 +39,24 @@ NEEDS = {
  "C15b": ("C15", "a byte inside the filter block of a table file altered (filter block read without checksum verification: false negatives, older versions resurface)"),
  "C16b": ("C16", "torn WAL tail with reuse_log_files: manifest reused, WAL not reused, replay fills no memtable (the table written from the replay is never recorded and gets deleted)"),
  "C17b": ("C17", "open between destroy_database's unlock and its unlink of LOCK, then a third open (lock dropped before LOCK is unlinked)"),
+ # ---- third wave (each agent was told about both earlier changes for its property)
+ "C01c": ("C01", "two logs left at reopen (close between a rotation and the flush's installation), the same key in both, directory listing not in numeric order, e.g. log numbers 9 and 10 (recover_unrecorded_logs no longer sorts the logs)"),
+ "C02c": ("C02", "memtable rotation landing while the worker appends a compaction's install record, crash before the rotated memtable's flush is recorded (obsolete-file pass keeps WALs from curr_wal_file_number instead of the version set's log number)"),
+ "C03c": ("C03", "several large versions of one key spanning data blocks of one table, snapshot get of a version not in the first block (table builder tells the filter about a user key only when it changes) - same idea as C14b / C13c"),
+ "C04c": ("C04", "a key with only newer-than-snapshot records just before a visible key, cursor in backward mode on that visible key, then next() (DatabaseIterator::next re-saves the skip key after the reversal step)"),
+ "C05c": ("C05", "get / new_iterator capturing its view while a memtable flush is inside its manifest append (immutable memtable taken out before log_and_apply)"),
+ "C06c": ("C06", "compact_range while a multi-key apply is mid-insert (force_memtable_compaction calls make_room_for_write directly instead of queueing as a writer: the memtable being filled is rotated and flushed half full)"),
+ "C07d": ("C07", "seek-triggered level-0 compaction with an older overlapping level-0 file (the widening to all overlapping level-0 files only happens on the size-triggered path)"),
+ "C08c": ("C08", "one transient rename failure while CURRENT is switched at open (set_current_file returns the result of the clean-up): CURRENT keeps naming a manifest that the next deletion pass removes"),
+ "C09c": ("C09", "a write that fails in make_room_for_write (I/O fault creating the new WAL, or a sticky background error) returns early without leaving the writer queue: every later write hangs"),
+ "C10c": ("C10", "an open that writes a manifest snapshot of a non-empty version, then another reopen (write_snapshot records smallest..smallest)"),
+ "C11c": ("C11", "an iterator dropped by the client exactly while a flush is in its unlocked manifest append (iterator cleanup runs the obsolete-file pass; the flush output is not protected at that moment)"),
+ "C12c": ("C12", "a record cut after its First fragment, file reopened for append, next record spans blocks (reader extends the assembly buffer on First instead of replacing it)"),
+ "C13c": ("C13", "same idea as C14b / C03c (filter dedupe in the table builder), found independently"),
+ "C14c": ("C14", "filter written with one bits-per-key setting and read with a larger one (key_may_match probes with the reader's count instead of the count stored in the filter)"),
+ "C15c": ("C15", "damage on the lookup path of the younger of two files holding versions of a key (Version::get keeps searching older files after a table read error and answers from them)"),
+ "C16c": ("C16", "crash tearing a manifest append, recovery with log reuse, further reopen (manifest reused although it did not end cleanly)"),
+ "C17c": ("C17", "owner closed while a background flush or compaction runs, another open inside that window (background_compaction_scheduled cleared when the task is picked up, not when it ends)"),
 }
 
 def results():
